@@ -1,7 +1,7 @@
 (* Lemmas about Model/Filters.v: the result-name loop terminates, collect_children is total, its
    output is wired (every reference names an earlier result), kernel shape. *)
 From RV Require Import Model.Filters.
-From Coq Require Import NArith ZArith List Bool Lia FinFun.
+From Coq Require Import NArith ZArith QArith List Bool Lia FinFun.
 Import ListNotations.
 Local Open Scope N_scope.
 
@@ -213,4 +213,14 @@ Proof.
   apply negb_false_iff in E1. apply Z.eqb_eq in E1. apply Z.leb_gt in E2, E3.
   rewrite <- E1. rewrite Z.eqb_refl. simpl.
   repeat (apply andb_true_iff; split); try apply Z.leb_le; try apply Z.ltb_lt; lia.
+Qed.
+
+Local Open Scope Q_scope.
+Lemma specular_exponent_range a e : specular_exponent a = Some e -> 1 <= e /\ e <= 128.
+Proof.
+  unfold specular_exponent. set (x := match a with Some v => v | None => 1 end).
+  destruct (Qle_bool 1 x) eqn:E1; [|discriminate]. destruct (Qle_bool x 128) eqn:E2; [|discriminate].
+  simpl. intro H. inversion H; subst e. clear H. apply Qle_bool_iff in E1, E2. unfold q_bound.
+  destruct (Qle_bool x 1) eqn:E3; [split; [apply Qle_refl|discriminate]|].
+  destruct (Qle_bool 128 x) eqn:E4; [split; [discriminate|apply Qle_refl]|]. split; assumption.
 Qed.
